@@ -407,11 +407,12 @@ fn write_float_array_values<W>(writer: &mut W, values: &[Option<Value<'_>>]) -> 
 where
     W: Write,
 {
+    // A sample without a value is written as a single missing value.
     let max_len = values
         .iter()
-        .flat_map(|value| match value {
-            Some(Value::Array(Array::Float(vs))) => Some(vs.len()),
-            _ => None,
+        .map(|value| match value {
+            Some(Value::Array(Array::Float(vs))) => vs.len(),
+            _ => 1,
         })
         .max()
         .ok_or_else(|| io::Error::new(io::ErrorKind::InvalidInput, "missing float array values"))?;
@@ -535,11 +536,12 @@ fn write_string_values<W>(writer: &mut W, values: &[Option<Value<'_>>]) -> io::R
 where
     W: Write,
 {
+    // A sample without a value is written as the missing string (`.`).
     let max_len = values
         .iter()
-        .flat_map(|value| match value {
-            Some(Value::String(s)) => Some(s.len()),
-            _ => None,
+        .map(|value| match value {
+            Some(Value::String(s)) => s.len(),
+            _ => 1,
         })
         .max()
         .ok_or_else(|| io::Error::new(io::ErrorKind::InvalidInput, "missing String values"))?;
